@@ -313,6 +313,12 @@ func genTypes(thorough bool) []*gtyp {
 
 // ---- evaluation of one value ----
 
+// show renders the normal form of a value as printable ASCII.
+func show(v reflect.Value) string {
+	q := fmt.Sprintf("%+q", trunc(fmt.Sprintf("%v", norm(v, false)), 120))
+	return q[1 : len(q)-1]
+}
+
 type shortWriter struct{ buf bytes.Buffer }
 
 func (w *shortWriter) Write(p []byte) (int, error) { return w.buf.Write(p) }
@@ -324,7 +330,7 @@ func evalValue(g *gtyp, idx int, cx *ctx) {
 	st.add("values", 1)
 	rc := replayCase{Part: "values", Type: g.name, Index: idx}
 	bad := func(oracle, what string) {
-		cx.col.add("C16|part=values|leaf="+g.leaf+"|oracle="+oracle, fmt.Sprintf("type %s value #%d (%s): %s", g.name, idx, trunc(fmt.Sprintf("%v", norm(v, false)), 120), what), rc)
+		cx.col.add("C16|part=values|leaf="+g.leaf+"|oracle="+oracle, fmt.Sprintf("type %s value #%d (%s): %s", g.name, idx, show(v), what), rc)
 	}
 	pv := ptrTo(v)
 	enc, err, pan := encK(pv.Interface())
@@ -434,7 +440,7 @@ func evalValue(g *gtyp, idx int, cx *ctx) {
 		return
 	}
 	if !sameValue(v, out.Elem()) {
-		bad("roundtrip-value-differs", fmt.Sprintf("Decode(Encode(v)) = %s", trunc(fmt.Sprintf("%v", norm(out.Elem(), false)), 120)))
+		bad("roundtrip-value-differs", fmt.Sprintf("Decode(Encode(v)) = %s", show(out.Elem())))
 	}
 	if e3, err, pan := encK(out.Interface()); err != nil || pan != "" || !bytes.Equal(e3, enc) {
 		bad("reencode-differs", fmt.Sprintf("Encode(Decode(Encode(v))) = %s, Encode(v) = %s", trunc(hx(e3), 60), trunc(hx(enc), 60)))
@@ -458,7 +464,7 @@ func evalValue(g *gtyp, idx int, cx *ctx) {
 		}
 	}
 	if len(st.samples) < 1 && g.depth == 2 && len(enc) > 4 && len(enc) < 40 && idx%5 == 3 {
-		st.samples = append(st.samples, map[string]interface{}{"part": "values", "type": g.name, "value": fmt.Sprintf("%v", norm(v, false)), "encoding": hx(enc), "outcome": "round trip and reference identical"})
+		st.samples = append(st.samples, map[string]interface{}{"part": "values", "type": g.name, "value": show(v), "encoding": hx(enc), "outcome": "round trip and reference identical"})
 	}
 }
 
